@@ -232,13 +232,15 @@ def run(ctx):
     _pool_and_shape(ctx, gen_cls, generate, cro)
 
 
-def _jobs_vs_machines(ctx, generate):
+def _jobs_vs_machines(ctx, generate_raw):
     chk = ctx.chk
     flag = "allow_less_jobs_than_machines"
+    generate = ctx.norm.flat(generate_raw)
     draws = [
         n for n in own_nodes(generate.node)
-        if isinstance(n, ast.Assign) and isinstance(n.targets[0], ast.Name) and n.targets[0].id == "num_machines"
+        if isinstance(n, ast.Assign) and isinstance(n.targets[0], ast.Name) and n.targets[0].id.startswith("num_machines")
         and isinstance(n.value, ast.Call) and isinstance(n.value.func, ast.Attribute) and n.value.func.attr == "randint"
+        and "machines_per_operation" not in ast.unparse(n.value)
     ]
     if len(draws) != 1 or len(draws[0].value.args) != 2:
         raise AnalysisError("generate: sampling of num_machines not recognised")
@@ -269,19 +271,22 @@ def _jobs_vs_machines(ctx, generate):
     else:
         chk.violation("R19.b", generate, draws[0], f"the sampled machine count is never capped by the job count when {flag} is False", loc=generate.loc(draws[0]))
     # explicit request: raising guard evaluated after num_jobs is known
-    eng = ctx.engine(relevant=lambda e: e.kind == "raise" or (e.kind == "write" and e.data.get("local")), max_depth=0)
+    eng = ctx.engine(
+        relevant=lambda e: e.kind == "raise", max_depth=2,
+        inline_filter=lambda t: t.name.startswith("_") and t.cls is not None and t.cls.qualname in generate_raw.cls.mro,
+    )
     seen_guard = False
-    for p in eng.paths(generate, generate.cls):
+    for p in eng.paths(generate_raw, generate_raw.cls):
         drew = None
         for i, e in enumerate(p.events):
-            if e.kind == "write" and e.data.get("local") and e.data.get("root") == "num_jobs":
+            if e.kind == "write" and e.data.get("local") and e.data.get("root") == "num_jobs" and e.frame.parent is None:
                 drew = i
             if e.kind == "branch":
                 t = e.data.get("text", "")
                 if "num_jobs" in t and "num_machines" in t and ("<" in t or ">" in t):
                     seen_guard = True
                     if drew is None and any(
-                        x.kind == "write" and x.data.get("root") == "num_jobs" for x in p.events[i:]
+                        x.kind == "write" and x.data.get("root") == "num_jobs" and x.frame.parent is None for x in p.events[i:]
                     ):
                         chk.violation(
                             "R19.b", generate, e.node,
@@ -325,7 +330,7 @@ def _iterator(ctx, base):
     guards = [n for n in own_nodes(nxt.node) if isinstance(n, ast.If) and any(isinstance(x, ast.Raise) for x in n.body)]
     g_ok = False
     for g in guards:
-        t = ast.unparse(g.test)
+        t = ctx.norm.xtext(nxt, g.test)
         if "_iteration_limit is not None" in t and ("_current_iteration >= self._iteration_limit" in t or "self._iteration_limit <= self._current_iteration" in t):
             g_ok = True
         elif "_current_iteration >" in t and ">=" not in t:
@@ -347,44 +352,59 @@ def _iterator(ctx, base):
     ln = base.methods.get("__len__")
     if ln is not None:
         rets = [n for n in own_nodes(ln.node) if isinstance(n, ast.Return)]
-        if rets and ast.unparse(rets[-1].value) == "self._iteration_limit":
+        if rets and ctx.norm.xtext(ln, rets[-1].value) == "self._iteration_limit":
             chk.ok("R19.e", ln.qualname, ln.loc(), "len = iteration limit")
         else:
             chk.violation("R19.e", ln, rets[-1] if rets else None, "__len__ is not the iteration limit")
 
 
-def _pool_and_shape(ctx, gen_cls, generate, cro):
+def _pool_and_shape(ctx, gen_cls, generate_raw, cro):
     chk = ctx.chk
+    generate = ctx.norm.flat(generate_raw)
+    xt = lambda e: ctx.norm.xtext(generate, e).replace(" ", "")  # noqa: E731
     outer = [n for n in generate.node.body if isinstance(n, ast.For)]
     if len(outer) != 1:
         raise AnalysisError("generate: job loop not recognised")
     o = outer[0]
-    inner = [n for n in o.body if isinstance(n, ast.For)]
-    if len(inner) != 1:
+    # operations of one job: an inner for-loop with one append, or a
+    # comprehension, over range(num_machines)
+    inner_for = [n for n in o.body if isinstance(n, ast.For)]
+    comps = [n for st in o.body for n in ast.walk(st) if isinstance(n, ast.ListComp)]
+    ops_iter = None
+    once = False
+    if len(inner_for) == 1:
+        i = inner_for[0]
+        ops_iter = xt(i.iter)
+        op_app = [n for n in ast.walk(i) if isinstance(n, ast.Call) and isinstance(n.func, ast.Attribute) and n.func.attr == "append"]
+        once = len(op_app) == 1 and not any(isinstance(n, (ast.If, ast.Break, ast.Continue)) for n in ast.walk(i))
+    elif len(comps) >= 1:
+        c = [c for c in comps if any(isinstance(x, ast.Call) and isinstance(x.func, ast.Attribute) and x.func.attr == "create_random_operation" for x in ast.walk(c.elt))]
+        if len(c) == 1 and len(c[0].generators) == 1 and not c[0].generators[0].ifs:
+            ops_iter = xt(c[0].generators[0].iter)
+            once = True
+    if ops_iter is None:
         raise AnalysisError("generate: operation loop not recognised")
-    i = inner[0]
-    if ast.unparse(o.iter) == "range(num_jobs)" and ast.unparse(i.iter) == "range(num_machines)":
-        chk.ok("R19.g", generate.qualname, generate.loc(o), "range(num_jobs) x range(num_machines)")
+    if xt(o.iter) == "range(num_jobs)" and ops_iter == "range(num_machines)":
+        chk.ok("R19.g", generate_raw.qualname, generate.loc(o), "range(num_jobs) x range(num_machines)")
     else:
         chk.violation(
-            "R19.g", generate, o,
-            f"jobs are built over `{ast.unparse(o.iter)}` x `{ast.unparse(i.iter)}` instead of "
+            "R19.g", generate_raw, o,
+            f"jobs are built over `{xt(o.iter)}` x `{ops_iter}` instead of "
             "range(num_jobs) x range(num_machines): wrong number of jobs or operations per job",
             loc=generate.loc(o),
         )
-    job_app = [n for n in o.body if isinstance(n, ast.Expr) and isinstance(n.value, ast.Call) and ast.unparse(n.value.func) == "jobs.append"]
-    op_app = [n for n in i.body if isinstance(n, ast.Expr) and isinstance(n.value, ast.Call) and ast.unparse(n.value.func) == "job.append"]
-    if len(job_app) == 1 and len(op_app) == 1:
-        chk.ok("R19.g", generate.qualname, generate.loc(o), "one append per job / per operation")
+    job_app = [n for st in o.body for n in ast.walk(st) if isinstance(n, ast.Call) and ast.unparse(n.func) == "jobs.append"]
+    if len(job_app) == 1 and once and not any(isinstance(n, (ast.Break, ast.Continue)) for n in ast.walk(o)):
+        chk.ok("R19.g", generate_raw.qualname, generate.loc(o), "one job per step, one operation per inner step")
     else:
-        chk.violation("R19.g", generate, o, "jobs/operations are not appended exactly once per loop step", loc=generate.loc(o))
-    # job list re-created per job
-    fresh_job = any(isinstance(n, ast.Assign) and ast.unparse(n.targets[0]) == "job" and isinstance(n.value, ast.List) and not n.value.elts for n in o.body)
-    if not fresh_job:
-        chk.violation("R19.g", generate, o, "the per-job operation list is not re-created for each job", loc=generate.loc(o))
+        chk.violation("R19.g", generate_raw, o, "jobs/operations are not appended exactly once per loop step", loc=generate.loc(o))
+    if inner_for:
+        fresh_job = any(isinstance(n, ast.Assign) and ast.unparse(n.targets[0]) == "job" and isinstance(n.value, ast.List) and not n.value.elts for n in o.body)
+        if not fresh_job:
+            chk.violation("R19.g", generate_raw, o, "the per-job operation list is not re-created for each job", loc=generate.loc(o))
     # sizes and durations from the configured ranges
     want = {"num_jobs": "num_jobs_range", "duration": "duration_range"}
-    for m, (var, rng) in ((generate, ("num_jobs", "num_jobs_range")), (cro, ("duration", "duration_range"))):
+    for m, (var, rng) in ((generate_raw, ("num_jobs", "num_jobs_range")), (cro, ("duration", "duration_range"))):
         hit = False
         for n in own_nodes(m.node):
             if isinstance(n, ast.Assign) and isinstance(n.targets[0], ast.Name) and n.targets[0].id == var and isinstance(n.value, ast.Call):
@@ -406,11 +426,11 @@ def _pool_and_shape(ctx, gen_cls, generate, cro):
     if pool is None:
         raise AnalysisError("generate: pool passed to create_random_operation not recognised")
     in_loop = [n for n in o.body if isinstance(n, ast.Assign) and ast.unparse(n.targets[0]) == pool]
-    if in_loop and all(ast.unparse(n.value) == "list(range(num_machines))" for n in in_loop):
-        chk.ok("R19.f", generate.qualname, generate.loc(in_loop[0]), "machine pool re-created for every job")
+    if in_loop and all(xt(n.value) == "list(range(num_machines))" for n in in_loop):
+        chk.ok("R19.f", generate_raw.qualname, generate.loc(in_loop[0]), "machine pool re-created for every job")
     else:
         chk.violation(
-            "R19.f", generate, o,
+            "R19.f", generate_raw, o,
             f"the machine pool `{pool}` is not re-created as list(range(num_machines)) for each job: from the "
             "second job on the pool is exhausted or stale",
             loc=generate.loc(o),
